@@ -1,4 +1,774 @@
 import PV.Model.Warc
 import PV.Lemmas.Reader
 namespace PV.Lemmas.Warc
+open PV.Warc PV.Reader PV.Lemmas.Reader
+
+/-! ## generic list facts -/
+
+theorem tw_append_found {α : Type} (p : α → Bool) : ∀ (P Q : List α),
+    (P.takeWhile p).length < P.length → (P ++ Q).takeWhile p = P.takeWhile p := by
+  intro P
+  induction P with
+  | nil => intro Q h; simp at h
+  | cons a t ih =>
+    intro Q h
+    by_cases ha : p a = true
+    · simp only [List.takeWhile_cons, ha, if_true, List.length_cons, Nat.add_lt_add_iff_right,
+        List.cons_append] at h ⊢
+      rw [ih Q h]
+    · simp [ha]
+
+theorem tw_all_of_forall {α : Type} (p : α → Bool) : ∀ (P : List α), (∀ a ∈ P, p a = true) →
+    P.takeWhile p = P := by
+  intro P h
+  induction P with
+  | nil => rfl
+  | cons a t ih =>
+    simp only [List.takeWhile_cons, h a (by simp), if_true]
+    rw [ih (fun x hx => h x (by simp [hx]))]
+
+theorem tw_append_all {α : Type} (p : α → Bool) (P Q : List α) (h : ∀ a ∈ P, p a = true) :
+    (P ++ Q).takeWhile p = P ++ Q.takeWhile p := by
+  rw [List.takeWhile_append_of_pos h]
+
+theorem tw_stop {α : Type} (p : α → Bool) (P : List α) (c : α) (Q : List α)
+    (h : ∀ a ∈ P, p a = true) (hc : p c = false) :
+    (P ++ c :: Q).takeWhile p = P := by
+  rw [tw_append_all p P _ h]
+  simp [hc]
+
+/-! ## `HeaderReader::Line` -/
+
+/-- line splitter on a list that starts at the read position: (line without CR, bytes used). -/
+def specLine0 (D : List UInt8) : Option (List UInt8 × Nat) :=
+  let n := (D.takeWhile (· != 10)).length
+  if n < D.length then
+    let raw := D.take n
+    some (if raw.getLast? == some 13 then raw.dropLast else raw, n + 1)
+  else none
+
+/-- schedule-free specification of `headerLine` on the unread stream `R`. -/
+def specLine (R : List UInt8) (consumed : Nat) : Option (List UInt8 × Nat × Nat) :=
+  match specLine0 (R.drop consumed) with
+  | none => none
+  | some (l, n1) => some (l, consumed + l.length, consumed + n1)
+
+def LinePost (R : List UInt8) (consumed : Nat) (res : LineRes) : Prop :=
+  match specLine R consumed with
+  | some (l, le, c') => ∃ out' s', res = .line l le c' out' s' ∧ out' ++ s'.src = R ∧ c' ≤ out'.length
+  | none => res = if R.isEmpty then .eofClean else .eofDirty
+
+theorem headerLine_succ (fuel : Nat) (out : List UInt8) (consumed : Nat) (s : Src) :
+    headerLine (fuel + 1) out consumed s =
+      (let rest := out.drop consumed
+       let n := (rest.takeWhile (· != 10)).length
+       if consumed + n < out.length then
+         let raw := rest.take n
+         let l := if raw.getLast? == some 13 then raw.dropLast else raw
+         .line l (consumed + l.length) (consumed + n + 1) out s
+       else
+         match readMore out s with
+         | none => if out.isEmpty then .eofClean else .eofDirty
+         | some (out', s') => headerLine fuel out' consumed s') := rfl
+
+theorem readMore_eq (out : List UInt8) (s : Src) :
+    readMore out s = if (s.src.take (want kRead s.sched)).isEmpty then none
+      else some (out ++ s.src.take (want kRead s.sched), ⟨s.src.drop (want kRead s.sched), s.sched.tail⟩) := by
+  unfold readMore
+  rw [osRead_eq]
+
+theorem headerLine_spec : ∀ (fuel : Nat) (out : List UInt8) (consumed : Nat) (s : Src) (R : List UInt8),
+    out ++ s.src = R → s.src.length + 2 ≤ fuel → LinePost R consumed (headerLine fuel out consumed s) := by
+  intro fuel
+  induction fuel with
+  | zero => intro _ _ _ _ _ h; omega
+  | succ fuel ih =>
+    intro out consumed s R hR hf
+    rw [headerLine_succ]
+    simp only []
+    by_cases hlt : consumed + ((out.drop consumed).takeWhile (· != 10)).length < out.length
+    · rw [if_pos hlt]
+      have hc : consumed ≤ out.length := by omega
+      have hdrop : R.drop consumed = out.drop consumed ++ s.src := by
+        rw [← hR, List.drop_append_of_le_length hc]
+      have hlt' : ((out.drop consumed).takeWhile (· != 10)).length < (out.drop consumed).length := by
+        rw [List.length_drop]; omega
+      have htw : (R.drop consumed).takeWhile (· != 10) = (out.drop consumed).takeWhile (· != 10) := by
+        rw [hdrop]; exact tw_append_found _ _ _ hlt'
+      unfold LinePost specLine specLine0
+      simp only [htw]
+      have hlen : ((out.drop consumed).takeWhile (· != 10)).length < (R.drop consumed).length := by
+        rw [hdrop, List.length_append]; omega
+      rw [if_pos hlen]
+      have htake : (R.drop consumed).take ((out.drop consumed).takeWhile (· != 10)).length
+          = (out.drop consumed).take ((out.drop consumed).takeWhile (· != 10)).length := by
+        rw [hdrop, List.take_append_of_le_length (by omega)]
+      simp only [htake]
+      exact ⟨out, s, by simp [Nat.add_assoc], hR, by omega⟩
+    · rw [if_neg hlt, readMore_eq]
+      have hw := want_pos kRead s.sched (by decide)
+      generalize want kRead s.sched = w at hw
+      by_cases hg : (s.src.take w).isEmpty = true
+      · rw [if_pos hg]
+        simp only []
+        have hs : s.src = [] := take_eq_nil_of_pos _ _ hw (by simpa using hg)
+        rw [hs, List.append_nil] at hR
+        subst hR
+        unfold LinePost specLine specLine0
+        simp only []
+        have : ¬ ((out.drop consumed).takeWhile (· != 10)).length < (out.drop consumed).length := by
+          rw [List.length_drop]; omega
+        rw [if_neg this]
+        trivial
+      · rw [if_neg hg]
+        simp only []
+        apply ih
+        · simp only []
+          rw [List.append_assoc, List.take_append_drop]; exact hR
+        · simp only [List.length_drop]
+          have : s.src ≠ [] := by intro h; apply hg; simp [h]
+          have := List.length_pos_iff.mpr this
+          omega
+
+
+/-! ### facts about `specLine0` / `specLine` -/
+
+theorem specLine0_some (D l : List UInt8) (n1 : Nat) (h : specLine0 D = some (l, n1)) :
+    l.length + 1 ≤ n1 ∧ n1 ≤ D.length ∧ ∃ t, (t = 13 ∨ t = 10) ∧ l ++ [t] <+: D := by
+  unfold specLine0 at h
+  simp only [] at h
+  split at h
+  · rename_i hlt
+    injection h with h
+    injection h with h1 h2
+    have hsp := tw_split 10 D hlt
+    generalize hn : (D.takeWhile (· != 10)).length = n at *
+    have htk : D.take n = D.takeWhile (· != 10) := by
+      conv => lhs; rw [hsp]
+      rw [List.take_left' hn]
+    rw [htk] at h1
+    generalize hraw : D.takeWhile (· != 10) = raw at *
+    by_cases hl : raw.getLast? = some 13
+    · have hl' : (raw.getLast? == some 13) = true := by simp [hl]
+      rw [hl', if_pos rfl] at h1
+      have hne : raw ≠ [] := by intro h0; simp [h0] at hl
+      have hdl := List.dropLast_concat_getLast hne
+      have hgl : raw.getLast hne = 13 := by
+        rw [List.getLast?_eq_some_getLast hne] at hl
+        injection hl
+      rw [hgl, h1] at hdl
+      refine ⟨?_, by omega, 13, Or.inl rfl, ?_⟩
+      · have := congrArg List.length hdl
+        simp at this; omega
+      · rw [hdl, hsp]; exact List.prefix_append _ _
+    · have hl' : (raw.getLast? == some 13) = false := by simp [hl]
+      rw [hl'] at h1
+      simp only [Bool.false_eq_true, if_false] at h1
+      subst h1
+      refine ⟨by omega, by omega, 10, Or.inr rfl, ?_⟩
+      rw [hsp]
+      simp
+  · exact absurd h (by simp)
+
+theorem specLine_some (R l : List UInt8) (c le c' : Nat) (h : specLine R c = some (l, le, c')) :
+    le = c + l.length ∧ le < c' ∧ c' ≤ R.length ∧ c ≤ R.length ∧
+      ∃ t, (t = 13 ∨ t = 10) ∧ l ++ [t] <+: R.drop c := by
+  unfold specLine at h
+  split at h
+  · exact absurd h (by simp)
+  · rename_i l0 n1 h0
+    injection h with h
+    injection h with h1 h2
+    injection h2 with h2 h3
+    subst h1
+    obtain ⟨a1, a2, a3⟩ := specLine0_some _ _ _ h0
+    rw [List.length_drop] at a2
+    exact ⟨h2.symm, by omega, by omega, by omega, a3⟩
+
+theorem specLine0_crlf (l tail : List UInt8) (h : (10 : UInt8) ∉ l) :
+    specLine0 (l ++ 13 :: 10 :: tail) = some (l, l.length + 2) := by
+  have htw : (l ++ 13 :: 10 :: tail).takeWhile (· != 10) = l ++ [13] := by
+    have : l ++ 13 :: 10 :: tail = (l ++ [13]) ++ 10 :: tail := by simp
+    rw [this]
+    apply tw_stop
+    · intro a ha
+      simp only [List.mem_append, List.mem_singleton] at ha
+      rcases ha with ha | ha
+      · have : a ≠ 10 := fun e => h (e ▸ ha)
+        simpa using this
+      · subst ha; decide
+    · decide
+  unfold specLine0
+  simp only [htw]
+  rw [if_pos (by simp)]
+  have : (l ++ 13 :: 10 :: tail).take (l ++ [13]).length = l ++ [13] := by
+    have : l ++ 13 :: 10 :: tail = (l ++ [13]) ++ 10 :: tail := by simp
+    rw [this, List.take_left]
+  rw [this]
+  simp
+
+theorem specLine0_lf (l tail : List UInt8) (h : (10 : UInt8) ∉ l) :
+    specLine0 (l ++ 10 :: tail) =
+      some (if l.getLast? == some 13 then l.dropLast else l, l.length + 1) := by
+  have htw : (l ++ 10 :: tail).takeWhile (· != 10) = l := by
+    apply tw_stop
+    · intro a ha
+      have : a ≠ 10 := fun e => h (e ▸ ha)
+      simpa using this
+    · decide
+  unfold specLine0
+  simp only [htw]
+  rw [if_pos (by simp), List.take_left]
+
+theorem specLine0_none (D : List UInt8) (h : (10 : UInt8) ∉ D) : specLine0 D = none := by
+  have : D.takeWhile (· != 10) = D := by
+    apply tw_all_of_forall
+    intro a ha
+    have : a ≠ 10 := fun e => h (e ▸ ha)
+    simpa using this
+  unfold specLine0
+  simp [this]
+
+
+/-! ## `strtoll` -/
+
+def sign (r1 : List UInt8) : Bool × Nat :=
+  match r1 with
+  | 45 :: _ => (true, 1)
+  | 43 :: _ => (false, 1)
+  | _ => (false, 0)
+
+def valOf (neg : Bool) (digs : List UInt8) : Int :=
+  let v : Nat := digs.foldl (fun a c => a * 10 + (c.toNat - 48)) 0
+  if neg then (if v > 2 ^ 63 then -(2 ^ 63 : Int) else -(v : Int))
+  else (if v ≥ 2 ^ 63 then (2 ^ 63 - 1 : Int) else (v : Int))
+
+/-- `strtoll` relative to the start position. -/
+def scan (rest : List UInt8) : Int × Nat × Bool :=
+  let ws := (rest.takeWhile isSpace).length
+  let r1 := rest.drop ws
+  let digs := (r1.drop (sign r1).2).takeWhile isDigit
+  if digs.isEmpty then (0, 0, false)
+  else (valOf (sign r1).1 digs, ws + (sign r1).2 + digs.length, true)
+
+theorem sign_cons (x : UInt8) (L : List UInt8) :
+    sign (x :: L) = if x = 45 then (true, 1) else if x = 43 then (false, 1) else (false, 0) := by
+  unfold sign; split <;> simp_all
+
+theorem strtoll_def (out : List UInt8) (start : Nat) :
+    strtoll out start =
+      (let rest := out.drop start
+       let ws := (rest.takeWhile isSpace).length
+       let r1 := rest.drop ws
+       let digs := (r1.drop (sign r1).2).takeWhile isDigit
+       if digs.isEmpty then (0, start, false)
+       else (valOf (sign r1).1 digs, start + ws + (sign r1).2 + digs.length, true)) := rfl
+
+theorem strtoll_eq (out : List UInt8) (start : Nat) :
+    strtoll out start =
+      ((scan (out.drop start)).1, start + (scan (out.drop start)).2.1, (scan (out.drop start)).2.2) := by
+  rw [strtoll_def]
+  unfold scan
+  simp only []
+  split <;> simp [Nat.add_assoc]
+
+/-- the Content-Length verdict computed by `headerLoop` (`none` = "Content-Length parse error"). -/
+def verdict (r : Int × Nat × Bool) (start lineEnd : Nat) (is15 : Bool) : Option Nat :=
+  if (start + r.2.1 != lineEnd) && !(is15 && !r.2.2) then none
+  else if decide (r.1 < 0) || !r.2.2 then none
+  else some r.1.toNat
+
+def lenVerdict (out l : List UInt8) (lineEnd : Nat) : Option Nat :=
+  verdict (scan (out.drop (lineEnd - l.length + 15))) (lineEnd - l.length + 15) lineEnd (l.length == 15)
+
+theorem sign_le (r1 : List UInt8) : (sign r1).2 ≤ 1 := by
+  unfold sign; split <;> simp
+
+theorem sign_append (x : UInt8) (A Q : List UInt8) : sign (x :: A ++ Q) = sign (x :: A) := by
+  rw [List.cons_append, sign_cons, sign_cons]
+
+/-- the scan of a buffer that contains a non-space byte and then a non-digit terminator does not
+    look beyond the terminator. -/
+theorem scan_append (A : List UInt8) (c : UInt8) (Q : List UInt8)
+    (hA : (A.takeWhile isSpace).length < A.length) (hc : isDigit c = false) :
+    scan ((A ++ [c]) ++ Q) = scan (A ++ [c]) := by
+  have h1 : ((A ++ [c]) ++ Q).takeWhile isSpace = A.takeWhile isSpace := by
+    rw [List.append_assoc]; exact tw_append_found _ _ _ hA
+  have h2 : (A ++ [c]).takeWhile isSpace = A.takeWhile isSpace := tw_append_found _ _ _ hA
+  generalize hws : (A.takeWhile isSpace).length = ws at *
+  -- A.drop ws = x :: A'
+  obtain ⟨x, A', hx⟩ : ∃ x A', A.drop ws = x :: A' := by
+    cases h : A.drop ws with
+    | nil => have := congrArg List.length h; simp at this; omega
+    | cons x A' => exact ⟨x, A', rfl⟩
+  have d1 : ((A ++ [c]) ++ Q).drop ws = (x :: A' ++ [c]) ++ Q := by
+    rw [List.append_assoc, List.drop_append_of_le_length (by omega), hx]; simp
+  have d2 : (A ++ [c]).drop ws = x :: A' ++ [c] := by
+    rw [List.drop_append_of_le_length (by omega), hx]
+  unfold scan
+  simp only [h1, h2, hws, d1, d2]
+  have hs : sign ((x :: A' ++ [c]) ++ Q) = sign (x :: A' ++ [c]) := by
+    have := sign_append x (A' ++ [c]) Q
+    simpa [List.append_assoc] using this
+  rw [hs]
+  have hsl := sign_le (x :: A' ++ [c])
+  generalize (sign (x :: A' ++ [c])) = sg at *
+  have d3 : ((x :: A' ++ [c]) ++ Q).drop sg.2 = ((x :: A').drop sg.2 ++ [c]) ++ Q := by
+    rw [List.drop_append_of_le_length (by simp; omega)]
+    congr 1
+    rw [List.drop_append_of_le_length (by simp; omega)]
+  have d4 : (x :: A' ++ [c]).drop sg.2 = (x :: A').drop sg.2 ++ [c] := by
+    rw [List.drop_append_of_le_length (by simp; omega)]
+  have htw : (((x :: A').drop sg.2 ++ [c]) ++ Q).takeWhile isDigit
+      = ((x :: A').drop sg.2 ++ [c]).takeWhile isDigit := by
+    apply tw_append_found
+    have : (((x :: A').drop sg.2 ++ [c]).takeWhile isDigit).length ≤ ((x :: A').drop sg.2).length := by
+      rw [List.takeWhile_append]
+      split
+      · simp [hc]
+      · exact (List.takeWhile_sublist _).length_le
+    simp only [List.length_append, List.length_singleton]
+    omega
+  rw [d3, d4, htw]
+
+theorem verdict_conv_false (v : Int) (start lineEnd : Nat) (is15 : Bool) (h : is15 = true ↔ start = lineEnd) :
+    verdict (v, 0, false) start lineEnd is15 = none := by
+  unfold verdict
+  by_cases hs : start = lineEnd
+  · simp [hs, h.mpr hs]
+  · have : is15 = false := by
+      cases is15 with
+      | false => rfl
+      | true => exact absurd (h.mp rfl) hs
+    simp [hs, this]
+
+/-- when only white space follows the key on the line, the verdict is a parse error however
+    much of the following bytes the scan sees. -/
+theorem verdict_allspace (A : List UInt8) (c : UInt8) (Y : List UInt8)
+    (hA : ∀ a ∈ A, isSpace a = true) (hc : isSpace c = true) (start : Nat) (is15 : Bool)
+    (h15 : is15 = true ↔ A.length = 0) :
+    verdict (scan (A ++ c :: Y)) start (start + A.length) is15 = none := by
+  have hws : A.length + 1 ≤ ((A ++ c :: Y).takeWhile isSpace).length := by
+    rw [tw_append_all _ _ _ hA]
+    simp [hc]
+  unfold scan
+  simp only []
+  generalize ((A ++ c :: Y).takeWhile isSpace).length = W at *
+  generalize (sign ((A ++ c :: Y).drop W)) = S
+  generalize (((A ++ c :: Y).drop W).drop S.2).takeWhile isDigit = Dg
+  split
+  · apply verdict_conv_false
+    rw [h15]; omega
+  · rename_i hd
+    have hdl : 0 < Dg.length := by
+      cases Dg with
+      | nil => simp at hd
+      | cons _ _ => simp
+    unfold verdict
+    have : (start + (W + S.2 + Dg.length) != start + A.length) = true := by
+      simp only [bne_iff_ne, ne_eq]
+      omega
+    simp [this]
+
+theorem verdict_prefix (A : List UInt8) (c : UInt8) (hc : c = 13 ∨ c = 10) (X : List UInt8)
+    (hX : A ++ [c] <+: X) (start : Nat) (is15 : Bool) (h15 : is15 = true ↔ A.length = 0) :
+    verdict (scan X) start (start + A.length) is15
+      = verdict (scan (A ++ [c])) start (start + A.length) is15 := by
+  obtain ⟨Q, rfl⟩ := hX
+  have hcd : isDigit c = false := by rcases hc with rfl | rfl <;> decide
+  have hcs : isSpace c = true := by rcases hc with rfl | rfl <;> decide
+  by_cases hA : (A.takeWhile isSpace).length < A.length
+  · rw [scan_append A c Q hA hcd]
+  · have hall : ∀ a ∈ A, isSpace a = true := by
+      have hp : A.takeWhile isSpace <+: A := List.takeWhile_prefix _
+      have := hp.eq_of_length_le (by omega)
+      intro a ha
+      rw [← this] at ha
+      have h := List.all_takeWhile (l := A) (p := isSpace)
+      rw [List.all_eq_true] at h
+      exact h a ha
+    have e1 : A ++ [c] ++ Q = A ++ c :: Q := by simp
+    have e2 : A ++ [c] = A ++ c :: [] := by simp
+    rw [e1, verdict_allspace A c Q hall hcs start is15 h15, e2,
+      verdict_allspace A c [] hall hcs start is15 h15]
+
+
+/-! ## the header loop -/
+
+def isCL (l : List UInt8) : Bool :=
+  decide (l.length ≥ 15) && (l.take 15).map toLowerByte == contentLengthKey
+
+theorem headerLoop_raw (fuel : Nat) (line out : List UInt8) (consumed : Nat) (s : Src) (len : Option Nat) :
+    headerLoop (fuel + 1) line out consumed s len =
+    if line.isEmpty then
+      match len with
+      | none => .error .noLength
+      | some n => .ok (n, consumed, out, s)
+    else
+      match headerLine (s.src.length + 2) out consumed s with
+      | .line l lineEnd consumed' out' s' =>
+        if l.length ≥ 15 && (l.take 15).map toLowerByte == contentLengthKey then
+          if len.isSome then .error .twoLengths
+          else
+            let start := lineEnd - l.length + 15
+            let (v, e, conv) := strtoll out' start
+            if e != lineEnd && !(l.length == 15 && !conv) then .error .lengthParse
+            else if v < 0 || !conv then .error .lengthParse
+            else headerLoop fuel l out' consumed' s' (some v.toNat)
+        else headerLoop fuel l out' consumed' s' len
+      | _ => .error .eofInHeader := rfl
+
+theorem headerLoop_succ (fuel : Nat) (line out : List UInt8) (consumed : Nat) (s : Src) (len : Option Nat) :
+    headerLoop (fuel + 1) line out consumed s len =
+      if line.isEmpty then
+        (match len with
+         | none => .error .noLength
+         | some n => .ok (n, consumed, out, s))
+      else
+        match headerLine (s.src.length + 2) out consumed s with
+        | .line l lineEnd consumed' out' s' =>
+          if isCL l then
+            if len.isSome then .error .twoLengths
+            else match lenVerdict out' l lineEnd with
+              | none => .error .lengthParse
+              | some v => headerLoop fuel l out' consumed' s' (some v)
+          else headerLoop fuel l out' consumed' s' len
+        | _ => .error .eofInHeader := by
+  rw [headerLoop_raw]
+  split
+  · rfl
+  · split
+    · rename_i l lineEnd consumed' out' s' _
+      unfold isCL
+      split
+      · split
+        · rfl
+        · unfold lenVerdict verdict
+          simp only [strtoll_eq]
+          split
+          · simp [*]
+          · split
+            · simp [*]
+            · simp [*]
+      · rfl
+    · rfl
+
+
+/-- schedule-free specification of `headerLoop` on the unread stream `R`: (length, consumed). -/
+def hlSpec : Nat → List UInt8 → List UInt8 → Nat → Option Nat → Except Err (Nat × Nat)
+  | 0, _, _, _, _ => .error .eofInHeader
+  | fuel + 1, line, R, consumed, len =>
+    if line.isEmpty then
+      match len with
+      | none => .error .noLength
+      | some n => .ok (n, consumed)
+    else
+      match specLine R consumed with
+      | some (l, le, c') =>
+        if isCL l then
+          if len.isSome then .error .twoLengths
+          else match lenVerdict R l le with
+            | none => .error .lengthParse
+            | some v => hlSpec fuel l R c' (some v)
+        else hlSpec fuel l R c' len
+      | none => .error .eofInHeader
+
+theorem hlSpec_succ (fuel : Nat) (line R : List UInt8) (consumed : Nat) (len : Option Nat) :
+    hlSpec (fuel + 1) line R consumed len =
+    if line.isEmpty then
+      match len with
+      | none => .error .noLength
+      | some n => .ok (n, consumed)
+    else
+      match specLine R consumed with
+      | some (l, le, c') =>
+        if isCL l then
+          if len.isSome then .error .twoLengths
+          else match lenVerdict R l le with
+            | none => .error .lengthParse
+            | some v => hlSpec fuel l R c' (some v)
+        else hlSpec fuel l R c' len
+      | none => .error .eofInHeader := rfl
+
+def LoopPost (R : List UInt8) (spec : Except Err (Nat × Nat))
+    (res : Except Err (Nat × Nat × List UInt8 × Src)) : Prop :=
+  match spec with
+  | .error e => res = .error e
+  | .ok (n, c) => ∃ out' s', res = .ok (n, c, out', s') ∧ out' ++ s'.src = R ∧ c ≤ out'.length
+
+theorem isCL_length (l : List UInt8) (h : isCL l = true) : 15 ≤ l.length := by
+  unfold isCL at h
+  simp only [Bool.and_eq_true, decide_eq_true_eq] at h
+  exact h.1
+
+theorem lenVerdict_of_prefix (X l : List UInt8) (c : Nat) (t : UInt8) (ht : t = 13 ∨ t = 10)
+    (hl : 15 ≤ l.length) (hX : l ++ [t] <+: X.drop c) :
+    lenVerdict X l (c + l.length) =
+      verdict (scan (l.drop 15 ++ [t])) (c + 15) (c + l.length) (l.length == 15) := by
+  unfold lenVerdict
+  have e1 : c + l.length - l.length + 15 = c + 15 := by omega
+  have e2 : c + l.length = (c + 15) + (l.drop 15).length := by simp; omega
+  rw [e1]
+  rw [e2]
+  have hpre : l.drop 15 ++ [t] <+: X.drop (c + 15) := by
+    obtain ⟨Q, hQ⟩ := hX
+    refine ⟨Q, ?_⟩
+    rw [← List.drop_drop, ← hQ]
+    simp only [List.append_assoc]
+    rw [List.drop_append_of_le_length hl]
+  have h15 : (l.length == 15) = true ↔ (l.drop 15).length = 0 := by
+    simp only [List.length_drop, beq_iff_eq]; omega
+  exact verdict_prefix (l.drop 15) t ht _ hpre (c + 15) _ h15
+
+theorem lenVerdict_ext (R l : List UInt8) (c le c' : Nat) (h : specLine R c = some (l, le, c'))
+    (hcl : isCL l = true) (out' ext : List UInt8) (hR : out' ++ ext = R) (hc' : c' ≤ out'.length) :
+    lenVerdict out' l le = lenVerdict R l le := by
+  obtain ⟨h1, h2, h3, h4, t, ht, hp⟩ := specLine_some R l c le c' h
+  subst h1
+  have hl := isCL_length l hcl
+  rw [lenVerdict_of_prefix R l c t ht hl hp, lenVerdict_of_prefix out' l c t ht hl]
+  have hp2 : out'.drop c <+: R.drop c := by
+    rw [← hR, List.drop_append_of_le_length (by omega)]
+    exact List.prefix_append _ _
+  apply List.prefix_of_prefix_length_le hp hp2
+  simp only [List.length_append, List.length_singleton, List.length_drop]
+  omega
+
+theorem headerLoop_spec : ∀ (fuel : Nat) (line out : List UInt8) (consumed : Nat) (s : Src)
+    (len : Option Nat) (R : List UInt8), out ++ s.src = R → consumed ≤ out.length →
+    LoopPost R (hlSpec fuel line R consumed len) (headerLoop fuel line out consumed s len) := by
+  intro fuel
+  induction fuel with
+  | zero => intro line out consumed s len R _ _; exact rfl
+  | succ fuel ih =>
+    intro line out consumed s len R hR hc
+    rw [headerLoop_succ, hlSpec_succ]
+    by_cases hline : line.isEmpty = true
+    · rw [if_pos hline, if_pos hline]
+      cases len with
+      | none => exact rfl
+      | some n => exact ⟨out, s, rfl, hR, hc⟩
+    · rw [if_neg hline, if_neg hline]
+      have hp := headerLine_spec (s.src.length + 2) out consumed s R hR (Nat.le_refl _)
+      unfold LinePost at hp
+      cases hspec : specLine R consumed with
+      | none =>
+        rw [hspec] at hp
+        simp only [] at hp
+        rw [hp]
+        by_cases hE : R.isEmpty = true
+        · rw [if_pos hE]; exact rfl
+        · rw [if_neg hE]; exact rfl
+      | some r =>
+        obtain ⟨l, le, c'⟩ := r
+        rw [hspec] at hp
+        obtain ⟨out', s', e, hR', hc'⟩ := hp
+        rw [e]
+        simp only []
+        by_cases hcl : isCL l = true
+        · rw [if_pos hcl, if_pos hcl]
+          by_cases hlen : len.isSome = true
+          · rw [if_pos hlen, if_pos hlen]; exact rfl
+          · rw [if_neg hlen, if_neg hlen]
+            rw [lenVerdict_ext R l consumed le c' hspec hcl out' s'.src hR' hc']
+            cases lenVerdict R l le with
+            | none => exact rfl
+            | some v => exact ih l out' c' s' (some v) R hR' hc'
+        · rw [if_neg hcl, if_neg hcl]
+          exact ih l out' c' s' len R hR' hc'
+
+
+/-! ## the body loop -/
+
+theorem readBody_succ (fuel : Nat) (out : List UInt8) (need : Nat) (s : Src) :
+    readBody (fuel + 1) out need s =
+      if need == 0 then some (out, s)
+      else if (s.src.take (want need s.sched)).isEmpty then none
+      else readBody fuel (out ++ s.src.take (want need s.sched))
+        (need - (s.src.take (want need s.sched)).length) ⟨s.src.drop (want need s.sched), s.sched.tail⟩ := by
+  rw [readBody]
+  simp only [osRead_eq]
+
+theorem readBody_spec : ∀ (fuel : Nat) (out : List UInt8) (need : Nat) (s : Src), need < fuel →
+    (need ≤ s.src.length → ∃ sched', readBody fuel out need s
+        = some (out ++ s.src.take need, ⟨s.src.drop need, sched'⟩)) ∧
+    (s.src.length < need → readBody fuel out need s = none) := by
+  intro fuel
+  induction fuel with
+  | zero => intro _ _ _ h; omega
+  | succ fuel ih =>
+    intro out need s hf
+    rw [readBody_succ]
+    by_cases h0 : need = 0
+    · subst h0
+      refine ⟨fun _ => ⟨s.sched, by simp⟩, fun h => by omega⟩
+    · have hne : (need == 0) = false := by simpa using h0
+      rw [hne]
+      simp only [Bool.false_eq_true, if_false]
+      have hw := want_pos need s.sched (by omega)
+      have hw' := want_le need s.sched (by omega)
+      generalize want need s.sched = w at hw hw'
+      by_cases hg : (s.src.take w).isEmpty = true
+      · rw [if_pos hg]
+        have hs : s.src = [] := take_eq_nil_of_pos _ _ hw (by simpa using hg)
+        refine ⟨fun h => ?_, fun _ => rfl⟩
+        rw [hs] at h; simp at h; omega
+      · rw [if_neg hg]
+        have hsne : s.src ≠ [] := by intro h; apply hg; simp [h]
+        have hpos := List.length_pos_iff.mpr hsne
+        have hlen : (s.src.take w).length = min w s.src.length := List.length_take
+        obtain ⟨i1, i2⟩ := ih (out ++ s.src.take w) (need - (s.src.take w).length)
+          ⟨s.src.drop w, s.sched.tail⟩ (by rw [hlen]; omega)
+        simp only [List.length_drop] at i1 i2
+        constructor
+        · intro h
+          have hwl : w ≤ s.src.length := by omega
+          obtain ⟨sched', e⟩ := i1 (by rw [hlen]; omega)
+          refine ⟨sched', ?_⟩
+          rw [e]
+          have hl : (s.src.take w).length = w := by rw [hlen]; omega
+          rw [hl, List.drop_drop, List.append_assoc]
+          have e1 : w + (need - w) = need := by omega
+          rw [e1]
+          congr 2
+          have := List.take_add (l := s.src) (i := w) (j := need - w)
+          rw [e1] at this
+          rw [this]
+        · intro h
+          apply i2
+          rw [hlen]; omega
+
+/-! ## `WARCReader::Read` -/
+
+inductive SpecRes where
+  | record (r : List UInt8) (R' : List UInt8)
+  | eof
+  | error (e : Err)
+
+/-- schedule-free specification of `read` on the unread stream `R`. -/
+def readSpec (R : List UInt8) : SpecRes :=
+  match specLine R 0 with
+  | none => if R.isEmpty then .eof else .error .eofInHeader
+  | some (l, _, c) =>
+    if l != "WARC/1.0".toUTF8.toList then .error .badVersion
+    else
+      match hlSpec (R.length + 2) l R c none with
+      | .error e => .error e
+      | .ok (length, c2) =>
+        let total := c2 + length + 4
+        if R.length < total then .error .eofInBody
+        else if (R.take total).drop (total - 4) != [13, 10, 13, 10] then .error .noTerminator
+        else .record (R.take total) (R.drop total)
+
+def ReadPost (spec : SpecRes) (res : ReadRes) : Prop :=
+  match spec with
+  | .eof => res = .eof
+  | .error e => res = .error e
+  | .record r R' => ∃ ov' s', res = .record r ov' s' ∧ ov' ++ s'.src = R'
+
+theorem read_spec (ov : List UInt8) (s : Src) (R : List UInt8) (hR : ov ++ s.src = R) :
+    ReadPost (readSpec R) (read ov s) := by
+  have hp := headerLine_spec (s.src.length + 2) ov 0 s R hR (Nat.le_refl _)
+  unfold LinePost at hp
+  unfold read readSpec
+  cases hspec : specLine R 0 with
+  | none =>
+    rw [hspec] at hp
+    simp only [] at hp
+    rw [hp]
+    by_cases hE : R.isEmpty = true
+    · simp only [hE, if_true]; exact rfl
+    · simp only [hE]; exact rfl
+  | some r =>
+    obtain ⟨l, le, c⟩ := r
+    rw [hspec] at hp
+    obtain ⟨out', s', e, hR', hc'⟩ := hp
+    rw [e]
+    simp only []
+    by_cases hv : (l != "WARC/1.0".toUTF8.toList) = true
+    · rw [if_pos hv, if_pos hv]; exact rfl
+    · rw [if_neg hv, if_neg hv]
+      have hfuel : out'.length + s'.src.length + 2 = R.length + 2 := by
+        rw [← hR', List.length_append]
+      rw [hfuel]
+      have hl := headerLoop_spec (R.length + 2) l out' c s' none R hR' hc'
+      unfold LoopPost at hl
+      cases hh : hlSpec (R.length + 2) l R c none with
+      | error er =>
+        rw [hh] at hl
+        simp only [] at hl
+        rw [hl]; exact rfl
+      | ok r2 =>
+        obtain ⟨n, c2⟩ := r2
+        rw [hh] at hl
+        obtain ⟨out2, s2, e2, hR2, hc2⟩ := hl
+        rw [e2]
+        simp only []
+        have hRl : R.length = out2.length + s2.src.length := by rw [← hR2, List.length_append]
+        by_cases ht : c2 + n + 4 < out2.length
+        · rw [if_pos ht, if_neg (by omega)]
+          have htk : R.take (c2 + n + 4) = out2.take (c2 + n + 4) := by
+            rw [← hR2, List.take_append_of_le_length (by omega)]
+          rw [htk]
+          by_cases hterm : ((out2.take (c2 + n + 4)).drop (c2 + n + 4 - 4) != [13, 10, 13, 10]) = true
+          · rw [if_pos hterm, if_pos hterm]; exact rfl
+          · rw [if_neg hterm, if_neg hterm]
+            refine ⟨_, _, rfl, ?_⟩
+            rw [← hR2, List.drop_append_of_le_length (by omega)]
+        · rw [if_neg ht]
+          obtain ⟨b1, b2⟩ := readBody_spec (c2 + n + 4 + 1) out2 (c2 + n + 4 - out2.length) s2 (by omega)
+          by_cases hb : c2 + n + 4 - out2.length ≤ s2.src.length
+          · obtain ⟨sched', eb⟩ := b1 hb
+            rw [eb, if_neg (by omega)]
+            simp only []
+            have htk : R.take (c2 + n + 4) = out2 ++ s2.src.take (c2 + n + 4 - out2.length) := by
+              rw [← hR2, List.take_append, List.take_of_length_le (by omega)]
+            rw [htk]
+            by_cases hterm : ((out2 ++ s2.src.take (c2 + n + 4 - out2.length)).drop (c2 + n + 4 - 4)
+                != [13, 10, 13, 10]) = true
+            · rw [if_pos hterm, if_pos hterm]; exact rfl
+            · rw [if_neg hterm, if_neg hterm]
+              refine ⟨_, _, rfl, ?_⟩
+              rw [← hR2, List.drop_append, List.drop_of_length_le (by omega)]
+              simp
+          · rw [b2 (by omega), if_pos (by omega)]
+            exact rfl
+
+/-! ## `readAll` -/
+
+def readAllSpec : Nat → List UInt8 → List (List UInt8) × Option Err
+  | 0, _ => ([], none)
+  | fuel + 1, R =>
+    match readSpec R with
+    | .eof => ([], none)
+    | .error e => ([], some e)
+    | .record r R' =>
+      let (rs, e) := readAllSpec fuel R'
+      (r :: rs, e)
+
+theorem readAll_spec : ∀ (fuel : Nat) (ov : List UInt8) (s : Src) (R : List UInt8), ov ++ s.src = R →
+    readAll fuel ov s = readAllSpec fuel R := by
+  intro fuel
+  induction fuel with
+  | zero => intro _ _ _ _; rfl
+  | succ fuel ih =>
+    intro ov s R hR
+    have hp := read_spec ov s R hR
+    unfold ReadPost at hp
+    rw [readAll, readAllSpec]
+    cases hs : readSpec R with
+    | eof => rw [hs] at hp; simp only [] at hp; rw [hp]
+    | error e => rw [hs] at hp; simp only [] at hp; rw [hp]
+    | record r R' =>
+      rw [hs] at hp
+      obtain ⟨ov', s', e, hR'⟩ := hp
+      rw [e]
+      simp only []
+      rw [ih ov' s' R' hR']
+
+theorem records_eq (input : List UInt8) (sched : List Nat) :
+    records input sched = readAllSpec (input.length + 1) input := by
+  unfold records
+  exact readAll_spec _ [] ⟨input, sched⟩ input (by simp)
+
 end PV.Lemmas.Warc
